@@ -66,7 +66,11 @@ class Driver(object):
             ev["id"] = lid
         elif k == "dispatch":
             self.called = []
-            self._disp().dispatch(op["ev"], Event())
+            # with the caller's own Event object, or letting the dispatcher create one
+            if op.get("own", True):
+                self._disp().dispatch(op["ev"], Event())
+            else:
+                self._disp().dispatch(op["ev"])
             ev["calls"] = list(self.called)
         elif k == "get":
             ev["ids"] = [self.ident(f) for f in self._disp().get_listeners(op["ev"])]
@@ -101,8 +105,10 @@ def same(exp, ev):
     return ev["r"] == exp["r"]
 
 
-def run_ops(ops, via=False):
+def run_ops(ops, via=False, own=None):
     d = Driver(via)
+    if own is not None:
+        ops = [dict(op, own=own) for op in ops]
     return [d.step(op) for op in ops]
 
 
@@ -129,14 +135,15 @@ def run(ctx):
     if nseq < 1000 or len(beh) <= nseq:
         raise T.MachineryError("too few behaviours emitted (%d, %d)" % (nseq, len(beh)))
     mism, cases = [], []
-    for b in beh.values():
-        evs = run_ops(b)
+    for nb, b in enumerate(beh.values()):
+        own = nb % 2 == 0  # half of the behaviours dispatch without passing an Event
+        evs = run_ops(b, own=own)
         ctx.count()
         if nontrivial(b):
             ctx.nontriv(json.dumps(b, sort_keys=True))
         if not all(same(x, y) for x, y in zip(b, evs)):
             mism.append(evs)
-            cases.append({"ops": b, "via": False})
+            cases.append({"ops": [dict(op, own=own) for op in b], "via": False})
     ctx.extra["tlc_behaviours_replayed"] = len(beh)
     ctx.extra["tlc_behaviours_not_reproduced"] = len(mism)
     ctx.sample({"tlc_behaviour": list(beh.values())[len(beh) // 2]})
@@ -181,7 +188,7 @@ def random_ops(rng, n):
             ops.append({"op": "add", "ev": rng.choice(EVENTS), "prio": rng.choice([-5, -1, 0, 0, 1, 5, 100]), "stops": rng.random() < 0.2})
             nl += 1
         elif x < 0.7:
-            ops.append({"op": "dispatch", "ev": rng.choice(EVENTS)})
+            ops.append({"op": "dispatch", "ev": rng.choice(EVENTS), "own": rng.random() < 0.5})
         elif x < 0.8:
             ops.append({"op": "get", "ev": rng.choice(EVENTS)})
         elif x < 0.85:
